@@ -5,6 +5,7 @@ package fsmworld
 import (
 	"context"
 	"encoding/hex"
+	"encoding/json"
 	"errors"
 	"fmt"
 	"math/rand/v2"
@@ -137,10 +138,21 @@ func (C19) Generate(rng *rand.Rand, tier string, runIdx uint64) simkit.Plan {
 	ids := &fedIDs{gen: map[string]int{}}
 	faulty := simkit.Chance(rng, 60)
 	stale := simkit.Chance(rng, 35)
+	caseVariants := simkit.Chance(rng, 40)
 	p.Cfg.Extra["faults"] = fmt.Sprint(faulty)
 	primaryOp := func() Step {
 		if simkit.Chance(rng, 45) {
-			return Step{Op: simkit.Pick(rng, []string{"ce.upsert", "ce.upsert", "ce.upsert", "ce.delete"}), Text: g.ConfigEntryJSON()}
+			text := g.ConfigEntryJSON()
+			if caseVariants && simkit.Chance(rng, 20) {
+				// the store keys config entries by lower-cased name: "Web" overwrites "web" in place
+				var m M
+				json.Unmarshal([]byte(text), &m)
+				if n, _ := m["Name"].(string); n != "" && m["Kind"] != "proxy-defaults" && m["Kind"] != "exported-services" {
+					m["Name"] = strings.ToUpper(n[:1]) + n[1:]
+					text = mustJSON(m)
+				}
+			}
+			return Step{Op: simkit.Pick(rng, []string{"ce.upsert", "ce.upsert", "ce.upsert", "ce.delete"}), Text: text}
 		}
 		return fedACLStep(rng, g, false, ids)
 	}
